@@ -11,6 +11,7 @@ CONSTANTS
   MaxEnv = 1
   MaxOps = 2
   EnvSuffixes <- NoSuffix
+  EnvFirst = TRUE
   LongToks <- Long
   Dev = {}
 INVARIANTS C06_ExactlyTheTree C06_ExistsUnchanged C06_RefusalIsError C06_Succeeds C07_Confined C07_NothingRemoved C07_InvalidRejected C08_VerdictIff C08_Lists C08_ReadOnly C08_FreshMkdirVerifies C09_DryTouchesNothing C09_DryRejectsIffReal C09_DryIsReportOrInvalid C09_CountsPredictReal
